@@ -13,7 +13,7 @@ func init() {
 	register(&propertyDef{
 		id:    "C20",
 		title: "the engine API classifies results and resolves files consistently",
-		rules: []ruleFunc{c20R1, c20R2, c20R3, c20R4, c20R5},
+		rules: []ruleFunc{c20R1, c20R2, c20R3, c20R4, c20R5, c20R6},
 		decided: "engineWorkflow.Run flags the result with OutputSchema()[id].Error() of the very id Execute returned, and every error return carries the flag true (R1); infer.OutputSchema derives the error flag from `outputID == \"error\"` only when no explicit schema was given and returns an explicit schema unchanged (R2); " +
 			"the exit-code table of the command-line tool: parse error 1, run error 3, error output 2, otherwise 0 (R3); file access in the engine is confined to loadfile.LoadContext, the readFile built-in and cmd/*, and relative names are joined with the absolute context directory (R4); " +
 			"RunWorkflow = Parse then Run on the same context and file name, the default workflow file name is workflow.yaml (R5).",
@@ -270,7 +270,7 @@ var c20FileAccessAllowed = map[string]string{
 // C20.R4 file access is confined and context-relative.
 func c20R4(c *Ctx) {
 	const rule = "C20.R4"
-	c.explain("C20.R4 the os file-access functions are called only by the tabled functions; NewFileCacheUsingContext joins every relative name with filepath.Abs(rootDir)")
+	c.explain("C20.R4 the os file-access functions are called only by the tabled functions; NewFileCacheUsingContext joins every relative name with filepath.Abs(rootDir) and stores that absolute path as the cache's root directory")
 	n := 0
 	cnt := map[string]int{}
 	for _, fn := range c.RepoFns {
@@ -324,6 +324,30 @@ func c20R4(c *Ctx) {
 		})
 		// the join is on the !IsAbs edge
 		c.verdict(abs != nil && nJoin >= 1 && okJoin, rule, "context-relative", c.pos(fn.Pos()), "relative names are joined with the absolute context directory", "relative file names are not resolved against the absolute context directory")
+		// the directory the cache remembers (and Parse hands on to the sub-workflow loader) is that absolute path too
+		nStore, okStore := 0, true
+		eachInstr(fn, func(r instrRef) {
+			st, ok := r.I.(*ssa.Store)
+			if !ok {
+				return
+			}
+			fa, ok := st.Addr.(*ssa.FieldAddr)
+			if !ok {
+				return
+			}
+			fv := fieldAddrVar(fa)
+			if fv == nil || fv.Name() != "rootDir" {
+				return
+			}
+			nStore++
+			if abs == nil || !allSources(st.Val, func(v ssa.Value) bool {
+				ex, ok := v.(*ssa.Extract)
+				return ok && ex.Tuple == ssa.Value(abs) && ex.Index == 0
+			}) {
+				okStore = false
+			}
+		})
+		c.verdict(nStore >= 1 && okStore, rule, "context-root-absolute", c.pos(fn.Pos()), "the cache's root directory is the absolute context directory", "the file cache remembers a root directory other than the absolute path computed when it was created: RootDir() — which Parse passes to the sub-workflow loader — would be resolved against the working directory again later")
 	}
 }
 
@@ -394,4 +418,12 @@ func c20R5(c *Ctx) {
 		})
 		c.verdict(okDef, rule, "default-file-name", c.pos(p.Pos()), "default workflow file name is workflow.yaml", "the default workflow file name is not workflow.yaml")
 	}
+}
+
+// C20.R6 = C11.R2c: shared sub-workflows are not mistaken for cycles (independence of file-map order and nesting).
+func c20R6(c *Ctx) {
+	e0 := len(c.explanation)
+	relabel(c, "C11.R2c", "C20.R6", c11R2c)
+	c.explanation = c.explanation[:e0]
+	c.explain("C20.R6 = C11.R2c the in-progress marker of the sub-workflow collection is removed right after each recursive call, so a sub-workflow shared by several branches (at any depth, in any file-map order) is loaded rather than reported as a cycle")
 }
